@@ -1366,7 +1366,7 @@ out:
 		/* unexpected char after JSON data */
 		tok->err = json_tokener_error_parse_unexpected;
 	}
-	if (!c)
+	if (!c && tok->err != json_tokener_error_memory)
 	{
 		/* We hit an eof char (0) */
 		if (state != json_tokener_state_finish && saved_state != json_tokener_state_finish)
